@@ -330,4 +330,20 @@ theorem keysSorted_normKvs (kvs : List (Bytes × JV)) : keysSorted (normKvs kvs)
       simp only [normKvs, keysSorted] at ih ⊢
       rw [ih]
 
+
+theorem tag_arr' : C.ARRAY_CONTAINER_TAG = 4 * 536870912 := by decide
+theorem tag_obj' : C.OBJECT_CONTAINER_TAG = 2 * 536870912 := by decide
+theorem wordsL_length' (vs : List JV) : (wordsL vs).length = vs.length * 4 := by
+  induction vs with
+  | nil => rfl
+  | cons v vs ih => simp [wordsL, ih]; omega
+theorem wordsK_length' (kvs : List (Bytes × JV)) : (wordsK kvs).length = kvs.length * 4 := by
+  induction kvs with
+  | nil => rfl
+  | cons kv kvs ih => obtain ⟨k, v⟩ := kv; simp [wordsK, ih]; omega
+theorem keyWords_length' (kvs : List (Bytes × JV)) : (keyWords kvs).length = kvs.length * 4 := by
+  induction kvs with
+  | nil => rfl
+  | cons kv kvs ih => obtain ⟨k, v⟩ := kv; simp [keyWords, ih]; omega
+
 end Jsonb
